@@ -26,7 +26,7 @@ func TestMain(m *testing.M) {
 		os.Exit(m.Run())
 	}
 	run = vk.Start("C08", "fault_enumeration")
-	run.Rule("scripts of <=6 steps over <=3 sessions {start, stop, duplicate start, stop of an unknown id, 1 s wait, 10 s interim tick} in 1-2 process incarnations ended by graceful Stop() or a scripted crash, plus a final quiesce incarnation; per-transmission outage script (closed port => ECONNREFUSED) with at most MaxRetries-2 refusals in total; a fixed set of hand-written scripts plus seeded random ones. Every script is run un-killed once (reference), then once per (verifPoint, occurrence) the reference run passed in any incarnation, the child killing itself with SIGKILL there, followed by a restart on the same directory that runs 90 s of virtual time with the server up. The oracle reads only the stream of Accounting-Requests the harness's UDP server answered, the API return values journalled by the child, and the directory. non-trivial = distinct (script, incarnation, point, occurrence) kill case in which the kill was reached after StartSession had been called for at least one session (or leftovers of an earlier incarnation were on disk) and the recovery incarnation ran to its end; reference runs with at least one refused transmission or a restart count as well")
+	run.Rule("scripts of <=6 steps over <=3 sessions {start, stop, duplicate start, stop of an unknown id, 1 s wait, 10 s interim tick} in 1-2 process incarnations ended by graceful Stop() or a scripted crash, plus a final quiesce incarnation; per-transmission outage script (closed port => ECONNREFUSED) with at most MaxRetries-2 refusals in total; a fixed set of hand-written scripts plus seeded random ones. Every script is run un-killed once (reference), then once per (verifPoint, occurrence) the reference run passed in any incarnation, the child killing itself with SIGKILL there, followed by a restart on the same directory that runs 90 s of virtual time with the server up. The oracle reads only the stream of Accounting-Requests the harness's UDP server answered, the API return values journalled by the child, and the directory. non-trivial = distinct (script, incarnation, point, occurrence) kill case in which the kill was reached after StartSession had been called for at least one session (or leftovers of an earlier incarnation were on disk) and the recovery incarnation ran to its end; reference runs with at least one refused transmission or a restart count as well; a counter-split case (TestCounterSplit: the 49 pairs of {0,1,2^32-1,2^32,2^32+1,2^40+7,2^64-1} plus seeded random pairs, sent as Stop and Interim through Client.SendAccounting and as Stop through StartSession/StopSession) is non-trivial when a supplied value is >= 2^32")
 	run.Assume("a transmission counts as accepted when the harness's server has sent the Accounting-Response (retransmissions with the same source, identifier and authenticator collapsed)")
 	run.Assume("crashes happen only at the 23 verifPoint markers of accounting.go (between persistence/transmit steps), not inside a file write; SIGKILL keeps completed writes (page cache), so fsync behaviour and torn files are out of reach")
 	run.Assume("'eventually' is bounded: after the last restart the server is up and 90 s of virtual time pass (all back-offs: base 1 s, max 4 s, MaxRetries 8)")
@@ -297,7 +297,7 @@ func TestCrashEnumeration(t *testing.T) {
 		if nd > 0 || len(ref.incs) > 2 {
 			run.Nontrivial("ref/" + ref.sc.ID)
 		}
-		if i < 2 || (nd > 0 && i%7 == 0) {
+		if i == 3 || i == 7 {
 			run.Sample(map[string]any{"kind": "reference", "script": ref.sc.String(), "accepted_stream": streamStr(ref.logs[len(ref.logs)-1]), "points_passed": len(pointsOf(ref.incs[0].J))})
 		}
 	})
@@ -306,6 +306,16 @@ func TestCrashEnumeration(t *testing.T) {
 	var cases []killCase
 	for _, ref := range refs {
 		if ref == nil || !ref.ok {
+			continue
+		}
+		runaway := false
+		for _, in := range ref.incs {
+			runaway = runaway || in.Runaway
+		}
+		if runaway {
+			// the reference run was cut short after maxTransmissionsPerIncarnation transmissions and has
+			// been judged as it is; enumerating kill points of an endless re-send loop adds nothing
+			run.Count("scripts_not_enumerated_runaway_reference", 1)
 			continue
 		}
 		for k := range ref.incs {
@@ -338,6 +348,50 @@ func parallel(workers []*worker, n int, f func(w *worker, i int)) {
 		}()
 	}
 	wg.Wait()
+}
+
+// TestSilentDropRealtime (thorough only): the outage is a server that silently ignores requests,
+// so the client runs into its 3 s time-out instead of ECONNREFUSED. This cannot run in a
+// synctest bubble (a socket read is not durably blocking), so it runs in real time, un-killed.
+func TestSilentDropRealtime(t *testing.T) {
+	if !run.Thorough() {
+		t.Skip("thorough tier only (about 40 s of wall-clock time)")
+	}
+	base, err := os.MkdirTemp("", "c08-rt-")
+	if err != nil {
+		t.Fatal(err)
+	}
+	defer os.RemoveAll(base)
+	w, err := newWorker(base, 0)
+	if err != nil {
+		t.Fatal(err)
+	}
+	defer w.srv.close()
+	waits := func(n int) []Step {
+		var out []Step
+		for i := 0; i < n; i++ {
+			out = append(out, st("wait", 0))
+		}
+		return out
+	}
+	for i, drop := range []int{3, 7} { // 3 datagrams (original + 2 retransmissions) = one timed-out exchange
+		sc := &Script{Realtime: true, DropFirst: drop,
+			Incs: []Inc{{Steps: append([]Step{st("start", 0), st("start", 1), st("stop", 0)}, waits(4)...), End: "graceful"}}}
+		sc.ID = fmt.Sprintf("rt%d", i)
+		sc.MaxRetries = maxRetries
+		sc.Sessions = genSessions(sc.ID, run.SubRand("realtime", i))
+		sc.Incs = append(sc.Incs, Inc{Steps: waits(12), End: "graceful"})
+		ref := w.runReference(sc)
+		if !ref.ok {
+			continue
+		}
+		run.Count("realtime_silent_drop_scenarios", 1)
+		judge(&scenario{sc: sc, incs: ref.incs, log: ref.logs[len(ref.logs)-1]})
+		run.Nontrivial("realtime/" + sc.ID)
+	}
+	w.srv.mu.Lock()
+	run.Count("datagrams_silently_dropped", w.srv.dropped)
+	w.srv.mu.Unlock()
 }
 
 // ---------------------------------------------------------------------------------------------
